@@ -41,6 +41,7 @@ var c06Classes = []c06Class{
 	{name: "corrupt-zlib", fileLevel: true, strict: true, zlib: true},
 	{name: "bad-adler", fileLevel: true, strict: true, zlib: true},
 	{name: "zlib-truncated", fileLevel: true, strict: true, zlib: true},
+	{name: "bad-zlib-header", fileLevel: true, strict: true, zlib: true},
 	{name: "unknown-encoding", fileLevel: true, strict: true},
 	{name: "empty-blob", fileLevel: true, strict: true},
 	{name: "block-type", args: []int64{0, 1}, strict: true},
@@ -264,6 +265,81 @@ func c06Exec(c fw.Case) *fw.Result {
 		}
 		res.Eval(fmt.Sprintf("damage/%s/%s", cl.name, posName))
 		res.Sample = map[string]any{"class": cl.name, "arg": c.Int("arg"), "position": posName, "procs": procs, "delivered": len(sr.Objs), "intact_prefix_objects": n, "err": fmt.Sprint(sr.Err)}
+	case "garbage-headerblock":
+		f := c06FullFile(c.Seed, 2, c.Int("zlib") == 1)
+		data, _ := f.Encode(map[int]pbfw.Damage{-1: {Kind: "garbage-headerblock"}})
+		sr := pbfScan(mon.NewReader(data), int(c.Int("procs")), c.Int("askheader") == 1, nil, nil)
+		key := "C06/damage/garbage-headerblock/header"
+		if len(sr.Objs) > 0 {
+			res.Violatef(key+"/invented", "objects delivered although the header block's payload is garbage")
+		}
+		if sr.Err == nil {
+			res.Violatef(key+"/silent-success", "the header block's payload is not a HeaderBlock but the scan ended without error")
+		}
+		res.Event(1)
+		res.Eval("damage/garbage-headerblock/header")
+	case "fuzz":
+		// damage INSIDE the protobuf payload of one block (framing and blob intact): byte
+		// flips, truncations, over-long length prefixes, endless varints. Many such mutations
+		// are not detectable (they just encode other data), so asserted are only: no crash, no
+		// hang, the blocks before it exactly, and — if the scan succeeds — the blocks after it
+		// exactly.
+		nb := 4
+		pos := int(c.Int("pos"))
+		for it := 0; it < int(c.Int("iters")); it++ {
+			f := c06FullFile(gen.Sub(c.Seed, "c06fz", it), nb, c.Int("zlib") == 1)
+			mr := gen.New(gen.Sub(c.Seed, "c06fzm", it), "mut")
+			op := mr.Intn(6)
+			f.PayloadMut = map[int]func([]byte) []byte{pos: func(p []byte) []byte {
+				q := append([]byte(nil), p...)
+				if len(q) < 8 {
+					return q
+				}
+				i := mr.Intn(len(q))
+				switch op {
+				case 0:
+					q[i] ^= byte(1 << uint(mr.Intn(8)))
+				case 1:
+					q = q[:i]
+				case 2:
+					q[i] = 0xFF
+				case 3: // endless varint
+					for k := i; k < len(q) && k < i+11; k++ {
+						q[k] = 0xFF
+					}
+				case 4: // insert bytes
+					q = append(q[:i], append([]byte{0x82, 0x80, 0x80, 0x80, 0x10}, q[i:]...)...)
+				case 5:
+					q[i] = byte(mr.Intn(256))
+				}
+				return q
+			}}
+			data, _ := f.Encode(nil)
+			sr := pbfScan(mon.NewReader(data), int(c.Int("procs")), false, nil, nil)
+			res.Event(int64(len(sr.Objs)) + 1)
+			key := fmt.Sprintf("C06/fuzz/op%d", op)
+			pre := c06PrefixExpect(f, pos)
+			if len(sr.Objs) < len(pre) {
+				res.Violatef(key+"/prefix-lost", "payload mutation op %d in block %d: only %d of the %d objects of the blocks before it were delivered (err=%v)", op, pos, len(sr.Objs), len(pre), sr.Err)
+			} else if d := pbfw.CompareSeq(pre, sr.Objs[:len(pre)]); d != "" {
+				res.Violatef(key+"/prefix-wrong", "payload mutation op %d in block %d: %s", op, pos, d)
+			}
+			if sr.Err == nil {
+				var suf []pbfw.Expect
+				for bi := pos + 1; bi < nb; bi++ {
+					suf = append(suf, f.ExpectBlock(bi)...)
+				}
+				if len(sr.Objs) < len(pre)+len(suf) {
+					res.Violatef(key+"/suffix-lost", "payload mutation op %d in block %d: scan succeeded but the intact blocks after it are incomplete (%d objects delivered)", op, pos, len(sr.Objs))
+				} else if d := pbfw.CompareSeq(suf, sr.Objs[len(sr.Objs)-len(suf):]); d != "" {
+					res.Violatef(key+"/suffix-wrong", "payload mutation op %d in block %d: scan succeeded but the blocks after it differ: %s", op, pos, d)
+				}
+				res.Add("fuzz_mutations_undetectable", 1)
+			} else {
+				res.Add("fuzz_mutations_rejected", 1)
+			}
+			res.Eval(fmt.Sprintf("fuzz/op%d/pos%d/err%v", op, pos, sr.Err != nil))
+		}
 	case "required-feature":
 		f := c06FullFile(c.Seed, 2, false)
 		data, _ := f.Encode(map[int]pbfw.Damage{-1: {Kind: "required-feature"}})
@@ -389,6 +465,22 @@ func c06Cases(tier string, seed uint64) []fw.Case {
 		}
 	}
 	for i := 0; i < 4; i++ {
+		cs = append(cs, fw.Case{Kind: "garbage-headerblock", Seed: gen.Sub(seed, "c06ghb", i), P: map[string]int64{"procs": int64(1 + 2*(i%2)), "askheader": int64(i / 2), "zlib": int64(i % 2)}})
+	}
+	nfz := 48
+	if tier == "thorough" {
+		nfz = 1200
+	}
+	for i := 0; i < nfz; i++ {
+		v := "plain"
+		if tier == "thorough" && i%6 == 5 {
+			v = "asan"
+		} else if i%4 == 3 {
+			v = "nocgo"
+		}
+		cs = append(cs, fw.Case{Kind: "fuzz", Variant: v, Seed: gen.Sub(seed, "c06fuzz", i), P: map[string]int64{"pos": int64(i % 4), "procs": []int64{1, 3}[i/4%2], "zlib": int64(i / 8 % 2), "iters": 12}})
+	}
+	for i := 0; i < 4; i++ {
 		cs = append(cs, fw.Case{Kind: "required-feature", Seed: gen.Sub(seed, "c06req", i), P: map[string]int64{"procs": int64(1 + 2*(i%2)), "askheader": int64(i / 2)}})
 	}
 	// (c) I/O fault sequences
@@ -406,7 +498,7 @@ func init() {
 	fw.Register(&fw.Prop{
 		ID:    "C06",
 		Level: "fault_enumeration",
-		Rule: "(a) every byte offset 0..len of small generated files (3-6 blocks) as a cut point, with 1 and 3 decoders; (b) 44 damage classes (size fields, raw_size, deflate stream, adler, blob encoding, block type, required feature, missing/short/long columns, out-of-range string indexes in 9 places, plain node group, garbage at three levels) x block position {header, first, middle, last} x decoders; (c) a non-EOF I/O error injected at every Read call index. Each case runs in a child process so that a crash or hang is an observation of that case. " +
+		Rule: "(a) every byte offset 0..len of small generated files (3-6 blocks) as a cut point, with 1 and 3 decoders; (b) 44 damage classes (size fields, raw_size, deflate stream, adler, blob encoding, block type, required feature, missing/short/long columns, out-of-range string indexes in 9 places, plain node group, garbage at three levels) x block position {header, first, middle, last} x decoders; (c) a non-EOF I/O error injected at every Read call index; (d) random damage inside the protobuf payload of one block with intact framing (bit flips, truncation, over-long prefixes, endless varints): no crash, no hang, neighbours exact. Each case runs in a child process so that a crash or hang is an observation of that case. " +
 			"Signature = cut-position class (in/after size prefix, in/after BlobHeader, in Blob, boundary; header or data block), or (damage class, position), or (chunk size, decoders) for I/O faults.",
 		Assumptions: []string{
 			"a cut at offset 0, after the header block or after any data block is a block boundary (success); anything else must end in a non-nil error",
@@ -419,6 +511,9 @@ func init() {
 		HangIsViolation:  true,
 		HangSeconds:      90,
 		CaseClass: func(c fw.Case) string {
+			if c.Kind == "fuzz" {
+				return "fuzz-payload-mutation"
+			}
 			if c.Kind == "damage" {
 				pos := map[int64]string{-1: "header", 0: "first", 1: "middle", 2: "middle", 3: "last"}[c.Int("pos")]
 				return "damage/" + c06Classes[c.Int("class")].name + "/" + pos
